@@ -235,8 +235,10 @@ def absenceSet (m : Model) (time : Nat) (working : Bool) (l : Live) : Live :=
 /-- `BaseComponent.is_ready` -/
 def isReady (m : Model) (l : Live) (c : Nat) : Bool :=
   let ts := (m.comp c).tasks.map l.tstate
+  -- a task that already holds workers counts as working (it turns WORKING right after the pass)
+  let anyWorking := (m.comp c).tasks.any fun t => l.tstate t == .working || decide ((l.allocW t).length > 0)
   if ts.all (· == .finished) then false
-  else !(ts.all (· == .none)) && !(ts.any (· == .working)) && ts.any (· == .ready)
+  else !(ts.all (· == .none)) && !anyWorking && ts.any (· == .ready)
 
 /-- `BaseTask.can_add_resources(worker, facility)` -/
 def canAdd (m : Model) (l : Live) (t : Nat) (w : Option Nat) (f : Option Nat) : Bool :=
@@ -267,6 +269,7 @@ def wpTargets (m : Model) (f t : Nat) : Bool := (m.wp (m.fac f).wp).targets.cont
 structure Alloc where
   l : Live
   free : List Nat
+  moved : List Nat := []   -- components moved in this pass (each moves at most once per step)
 
 /-- the conveyor / space / skill test of step 3-1 for one candidate workplace -/
 def placeOk (m : Model) (l : Live) (t c p : Nat) : Bool :=
@@ -313,8 +316,8 @@ def allocWorkers (m : Model) (t : Nat) (a : Alloc) : Alloc :=
   let cands := free.filter fun w => hasSkill (m.worker w).skills name && teamTargets m w t
   cands.foldl (fun acc w =>
     if canAdd m acc.l t (some w) Option.none then
-      { l := giveW acc.l t w, free := acc.free.filter (· != w) }
-    else acc) { l := a.l, free := free }
+      { acc with l := giveW acc.l t w, free := acc.free.filter (· != w) }
+    else acc) { a with free := free }
 
 /-- step 3-2, task that needs a facility -/
 def allocPairs (m : Model) (t : Nat) (a : Alloc) : Alloc :=
@@ -333,10 +336,29 @@ def allocPairs (m : Model) (t : Nat) (a : Alloc) : Alloc :=
           hasSkill (m.worker w).skills name && teamTargets m w t && canAdd m acc.l t (some w) (some f)
         match sortWorkers m (m.task t).wRule name (some p) ws with
         | [] => acc
-        | w :: _ => { l := giveF (giveW acc.l t w) t f, free := acc.free.filter (· != w) }) a
+        | w :: _ => { acc with l := giveF (giveW acc.l t w) t f, free := acc.free.filter (· != w) }) a
+
+/-- the component that `placeStep m t l` moves, if it moves one -/
+def placeMoves (m : Model) (t : Nat) (l : Live) : Option Nat :=
+  match (m.task t).comp with
+  | Option.none => Option.none
+  | some c =>
+    if isReady m l c then
+      match (sortWps m l (m.task t).wpRule (m.task t).name (m.task t).wps).find? (placeOk m l t c) with
+      | Option.none => Option.none
+      | some _ => some c
+    else Option.none
 
 def allocTask (m : Model) (acc : Alloc) (t : Nat) : Alloc :=
-  let a1 : Alloc := { acc with l := placeStep m t acc.l }
+  let skip : Bool := match (m.task t).comp with
+    | some c => acc.moved.contains c
+    | Option.none => false
+  let a1 : Alloc :=
+    if skip then acc
+    else { acc with l := placeStep m t acc.l,
+                    moved := match placeMoves m t acc.l with
+                      | some c => acc.moved ++ [c]
+                      | Option.none => acc.moved }
   if (m.task t).isAuto then a1
   else if (m.task t).needFac then allocPairs m t a1
   else allocWorkers m t a1
